@@ -29,6 +29,8 @@ type Sub struct {
 	Drained      int
 	Unsubscribed int
 	dropInflight bool
+	max          int // AutoUnsubscribe limit (0 = none)
+	delivered    int
 }
 
 // Conn is the in-memory connection.
@@ -191,6 +193,11 @@ func (c *Conn) deliver(subject, reply string, payload []byte, block bool) int {
 				select {
 				case s.Ch <- m:
 					sent = true
+					s.delivered++
+					if s.max > 0 && s.delivered >= s.max {
+						s.Active = false
+						s.dropInflight = true
+					}
 				default:
 				}
 			}
@@ -215,6 +222,12 @@ func (c *Conn) put(s *Sub, m *nats.Msg) (gone bool) {
 		return true
 	}
 	s.Ch <- m
+	s.delivered++
+	if s.max > 0 && s.delivered >= s.max {
+		// AutoUnsubscribe: the subscription is removed once the limit is reached
+		s.Active = false
+		s.dropInflight = true
+	}
 	return false
 }
 
@@ -286,6 +299,13 @@ func (c *Conn) ChanQueueSubscribe(subject, queue string, ch chan *nats.Msg) (*na
 		c.emit(fmt.Sprintf("%s %s", op, subject))
 		c.mu.Lock()
 		was := s.Active
+		if strings.HasPrefix(op, "autounsubscribe:") {
+			fmt.Sscanf(op, "autounsubscribe:%d", &s.max)
+			if s.max > 0 && s.delivered >= s.max {
+				s.Active = false
+				s.dropInflight = true
+			}
+		}
 		switch op {
 		case "drain":
 			s.Drained++
